@@ -6,7 +6,7 @@ HERE = os.path.dirname(os.path.dirname(os.path.abspath(__file__)))
 
 # id -> (engine, level, technique, level_text, level_note, design_ref)
 HIST_NOTE = "trusts the monitor (harness/src/hist/monitor.rs) as the reading of the statement, poll(2) and /proc fdinfo as kernel ground truth, and the hook commit's read-only statistics; sources are tainted (not judged) after documented misuse; never shows absence"
-def hist(text, tech="model-based (stateful) property-based testing: generated operation histories incl. in-callback programs, trace-checking reference monitor, proptest shrinking"):
+def hist(text, tech="model-based (stateful) property-based testing: generated operation histories incl. in-callback programs, trace-checking reference monitor, proptest shrinking; thorough tier adds a coverage-guided libFuzzer campaign (cargo-fuzz, ASan) whose bytes are decoded into the same history grammar and judged by the same monitor in-target"):
     return ("hist", "exploration", tech, text, HIST_NOTE, "DESIGN.md sections 3.1-3.3 and 4")
 
 CHECKS = {
@@ -19,18 +19,18 @@ CHECKS = {
     "C09": hist("Instrumented sources count register/reregister/unregister calls; after each process_events return the effective post-action (explicit over deferred) must show exactly its calls on exactly that source and none on any other, including after Err returns and slot reuse inside the callback; the deferred cell is observed empty between events (statistics hook)."),
     "C13": hist("Idle callbacks: exactly once, after all source callbacks of the first Ok dispatch, insertion order, idle-of-idle deferred to the next dispatch, cancelled never, failed dispatch runs none, closures dropped exactly once."),
     "C14": hist("Lifecycle probes with several ping sub-sources and optional synthetic events: one before_sleep then one before_handle_events per live lifecycle source before any event processing, synthetic event delivered in the same dispatch and never shown to the iterator, iterator covers exactly own real events, lifecycle list == enabled lifecycle sources after every step incl. failed registrations."),
-    "C15": ("hist", "fault_enumeration", "fault injection over generated histories (failing register at sub-step k / reregister / unregister / process_events / before_sleep, scripted Err returns) with a trace-checking reference monitor", "Faults are injected at generated registration steps and event-processing calls of generated histories which then continue; the failing call must return its error, hand the source back, leave slots / lifecycle list / kernel table as before, never make a later dispatch panic, and every cause pending before an Err must still be served afterwards. Positions are sampled (proptest), not enumerated exhaustively per history.", HIST_NOTE, "DESIGN.md section 4 C15"),
-    "C16": hist("After every step the kernel's epoll table (/proc/self/fdinfo) minus polling's own entries must equal the model's set of enabled fd registrations: keys for all, interest/mode bits and fd for Generic sources; released fds are re-inserted.", "model-based property-based testing with a kernel oracle (/proc/self/fdinfo epoll table) after every generated step"),
+    "C15": ("hist", "fault_enumeration", "fault injection over generated histories (failing register at sub-step k / reregister / unregister / process_events / before_sleep, scripted Err returns) with a trace-checking reference monitor; thorough tier adds a coverage-guided libFuzzer campaign over the same grammar and oracle", "Faults are injected at generated registration steps and event-processing calls of generated histories which then continue; the failing call must return its error, hand the source back, leave slots / lifecycle list / kernel table as before, never make a later dispatch panic, and every cause pending before an Err must still be served afterwards. Positions are sampled (proptest), not enumerated exhaustively per history.", HIST_NOTE, "DESIGN.md section 4 C15"),
+    "C16": hist("After every step the kernel's epoll table (/proc/self/fdinfo) minus polling's own entries must equal the model's set of enabled fd registrations: keys for all, interest/mode bits and fd for Generic sources; released fds are re-inserted.", "model-based property-based testing with a kernel oracle (/proc/self/fdinfo epoll table) after every generated step; thorough tier adds a coverage-guided libFuzzer campaign over the same history grammar and oracle"),
     "C03": ("sched", "exploration", "schedule exploration: generated thread interleavings at yield-site granularity (cooperative scheduler over the hook, proptest-generated + bounded-exhaustive DFS schedules) plus single-thread history PBT; logical-clock oracle", "Actor threads with ping/clone/drop programs against a dispatching loop thread; the interleaving of every eventfd write, drain read and handle drop is the generated input; every ping served by a later callback, at most one callback per dispatch, no callback without a ping that can have landed after the previous drain, clean self-removal when the last handle goes, no spinning afterwards. Plus ping histories through the history machine.", "schedules are explored at the granularity of the hook's yield sites on x86-TSO with the real atomics; weaker memory orderings and preemption inside a site-free region are out of reach; blocked threads are detected through /proc", "DESIGN.md sections 3.4 and 4 C03"),
     "C04": ("sched", "exploration", "schedule exploration (generated interleavings of sender threads and the loop at enqueue / wake / wake-on-drop / try_recv / re-wake sites) + history PBT + batch-limit family; per-sender FIFO reference", "Per sender delivered == sent-Ok in order exactly once, one Closed after everything and only after every sender is gone, nothing after it, settle points show that no message stays queued without a pending wake-up, blocking sends complete while the loop dispatches (blocked senders detected via /proc, decided by state), queue lengths around the 1024 batch limit drain without external wake-up. Known finding F6 (sync_channel(0)) is listed and steered around.", "as C03; a stranded sender is decided by state (8 further dispatches, every unfinished sender asleep in the kernel, nothing delivered), never by a timeout alone", "DESIGN.md sections 3.4 and 4 C04"),
     "C10": ("sched", "exploration", "schedule exploration (generated interleavings of waker threads against the executor's enqueue / flag swap / eventfd write / flag clear / dequeue / re-wake / drop sites, incl. mid-poll) + batch-limit family + scripted StreamSource", "Scripted non-Send futures: every scheduled future polled, a poll after every wake of a pending task, polls and drops only on the loop thread, each Ready(v) delivered exactly once, every future dropped exactly once when the executor goes (checked before the Scheduler goes), ExecutorDestroyed afterwards; 0..3100 ready tasks drain over consecutive dispatches without external wake-up, scheduling from callbacks and futures; stream items in order, one None, then removal. Known finding F7 (wake in flight while the executor is dropped) is listed and steered around.", "as C03; async-task's own atomics have no yield sites; windows that exist only in changed code have no site either", "DESIGN.md sections 3.4 and 4 C10"),
     "C11": ("sched", "exploration", "schedule exploration (generated interleavings of stop/wakeup/waker.wake against run()/block_on() at every yield site, incl. mid-poll) + bounded-exhaustive DFS of tiny configurations", "Lost wake-ups and lost stops are decided by state: the loop thread provably asleep in the poller with an unserved wake-up / wake over 300 scheduling rounds; stop visible at the loop condition must end the loop; run/block_on return values need a cause.", "as C03; 'promptly' is never measured as a duration", "DESIGN.md sections 3.4 and 4 C11"),
     "C12": ("timing", "exploration", "property-based testing over dispatch configurations on the real monotonic clock: exact lower bound, 3-times-confirmed upper bound, dead-peer sources, helper-thread wake-ups", "Configurations of timeout class x timer sets x idle/dead-peer sources x optional helper thread; with no event and no wake-up the dispatch must last at least min(timeout, earliest deadline - t_before) exactly (monotonic clock argument), a limiting timer must have fired, zero timeout never blocks, None waits for the helper; oversleep beyond 60 ms only counts when it repeats 3 times.", "lower bound relies on CLOCK_MONOTONIC and hrtimers never firing early; upper bound detects systematic errors only; module written by a sub-agent, reviewed", "DESIGN.md section 4 C12"),
-    "C17": ("asyncio", "exploration", "property-based testing of Async adapter sessions (payload, chunk plans, send-buffer sizes, topologies, dispatch plans) with a byte round-trip oracle, state-based stuck detection and fcntl flag checks", "Five topologies over a socketpair driven by calloop's executor; bytes received == bytes sent in order; a task pending while poll(2) says its fd is ready and dispatches wake nothing is a lost wake (decided by state, 1+3 dispatches); O_NONBLOCK set while adapted and restored afterwards.", "spurious wake-ups are allowed; module written by a sub-agent, reviewed", "DESIGN.md section 4 C17"),
-    "C18": ("transient", "exploration", "model-based property-based testing of TransientSource call sequences + bounded-exhaustive enumeration of all protocol-conforming sequences (thorough: up to length 6), kernel epoll table and timer heap as ground truth", "Instrumented fd and timer children under a top-level and a composite parent; reference machine per child (Fresh/Kept/Disabled/Gone); after every step child registration flag == kernel table / timer heap == model; no double register/unregister, no drop while registered, forwarding only from the current child, only Continue/Reregister returned.", "only protocol-conforming sequences are generated (the docs warn about leaks otherwise); module written by a sub-agent, reviewed", "DESIGN.md section 4 C18"),
+    "C17": ("asyncio", "exploration", "property-based testing of Async adapter sessions (payload, chunk plans, send-buffer sizes, topologies, dispatch plans) with a byte round-trip oracle, state-based stuck detection and fcntl flag checks; thorough tier adds a libFuzzer campaign over the same session grammar", "Five topologies over a socketpair driven by calloop's executor; bytes received == bytes sent in order; a task pending while poll(2) says its fd is ready and dispatches wake nothing is a lost wake (decided by state, 1+3 dispatches); O_NONBLOCK set while adapted and restored afterwards.", "spurious wake-ups are allowed; module written by a sub-agent, reviewed", "DESIGN.md section 4 C17"),
+    "C18": ("transient", "exploration", "model-based property-based testing of TransientSource call sequences + bounded-exhaustive enumeration of all protocol-conforming sequences (thorough: up to length 6), kernel epoll table and timer heap as ground truth; thorough tier adds a libFuzzer campaign over the same alphabet", "Instrumented fd and timer children under a top-level and a composite parent; reference machine per child (Fresh/Kept/Disabled/Gone); after every step child registration flag == kernel table / timer heap == model; no double register/unregister, no drop while registered, forwarding only from the current child, only Continue/Reregister returned.", "only protocol-conforming sequences are generated (the docs warn about leaks otherwise); module written by a sub-agent, reviewed", "DESIGN.md section 4 C18"),
     "C19": ("signals", "exploration", "model-based property-based testing of signal-mask histories in a single-threaded process (proptest, reference model of mask / pending sets / handler counts)", "Histories of new/add/remove/set/raise/insert/dispatch/drop; after every op the real thread mask, sigpending() and counting handlers are compared with the model; dispatch results compared with pending configured instances incl. siginfo fields.", "single-threaded check process; Linux standard-signal semantics as stated in the module header", "DESIGN.md section 4 C19"),
     "C20": ("pure", "exploration",
-            "property-based testing (proptest) over (id,generation,sub) triples + bounded-exhaustive boundary planes + kernel epoll-table cross-check",
+            "property-based testing (proptest) over (id,generation,sub) triples + bounded-exhaustive boundary planes + kernel epoll-table cross-check; thorough tier adds a libFuzzer campaign",
             "Random triples/pairs/raw keys (round trip, injectivity, field isolation, reserved key, bump/same_source laws), every generation x sub-id of 7 boundary slot indices (thorough: all 2^32 pairs per id; quick: sub-ids at stride 61), token factories up to and beyond 65536 requests, real loops with up to 131073 reuses of one slot compared with /proc fdinfo. Arithmetic over a finite domain: search plus enumeration is the natural level.",
             "trusts that the verif accessors are thin wrappers over TokenInner (hook commit) and that fdinfo reports epoll data faithfully; ids between boundary values are sampled, not enumerated",
             "DESIGN.md section 4 C20"),
@@ -88,10 +88,11 @@ def main():
             {"name": "timing", "path": "harness/src/props/c12.rs", "serves_properties": ["C12"], "kind_free_text": "dispatch-duration configurations on the real clock"},
             {"name": "asyncio", "path": "harness/src/props/c17.rs", "serves_properties": ["C17"], "kind_free_text": "Async adapter session interpreter over socketpairs and calloop's executor"},
             {"name": "transient", "path": "harness/src/props/c18.rs", "serves_properties": ["C18"], "kind_free_text": "TransientSource sequence machine with reference model and exhaustive enumeration"},
+            {"name": "fuzz", "path": "harness/src/fuzz.rs + fuzz/", "serves_properties": [i for i in ids if i in CHECKS and (CHECKS[i][0] in ("hist", "asyncio", "transient", "pure"))], "kind_free_text": "one cargo-fuzz/libFuzzer target (ASan + SanCov over calloop and the harness) for every single-threaded, input-determined sub-check: VERIF_FUZZ_PROP selects the property, input bytes are decoded with arbitrary::Unstructured into that sub-check's case grammar (any byte string is a valid case), the semantic oracle runs in-target, violations are written as JSON replays and re-confirmed in the check process; run by the thorough tier only"},
             {"name": "signals", "path": "harness/src/props/c19.rs", "serves_properties": ["C19"], "kind_free_text": "single-threaded signal-history machine with a mask/pending/handler model"},
         ],
         "checks": checks,
-        "notes": "All checks: exit 0 held / exit 1 + VIOLATION line / exit 2 infrastructure problem (never a violation). Known findings: /verif/known_findings.json. VERIF_SEED selects the proptest seed (default 1).",
+        "notes": "All checks: exit 0 held / exit 1 + VIOLATION line / exit 2 infrastructure problem (never a violation). Known findings: /verif/known_findings.json. VERIF_SEED selects the proptest seed (default 1). The thorough tier of C01 C02 C05-C09 C13-C18 C20 additionally builds and runs the libFuzzer target (cargo +nightly fuzz, offline); VERIF_NO_FUZZ=1 skips that stage.",
         "not_applicable": na,
     }
     json.dump(manifest, open(os.path.join(HERE, "MANIFEST.json"), "w"), indent=1)
